@@ -52,6 +52,9 @@ CHECKS["C12"] = dict(cat="proof", tech=TECH,
 CHECKS["C19"] = dict(cat="proof", tech=TECH,
    text="Contracts on flatten (induction step against its recursive specification), on Detector/CombinedDetector iteration, length, indexing, +, +=, sum, default trigger with symbolic hit flags, clear, position test with symbolic depth, and keyword routing of build_antennas, executed through the real class machinery.",
    note=PROOF_NOTE + " Detector shapes are bounded (B); trigger keyword routing by error-message parsing is N.", ref="§5 C19")
+CHECKS["C09"] = dict(cat="proof", tech=TECH,
+   text="Representation invariant of the per-hit caches of Antenna and AntennaSystem proved to be established by the constructor and preserved by every query, receive and clear from arbitrary states (so under every history), with the triggered-subsequence, is_hit and clear postconditions; structure of full_waveform (long grid, superposition), single noise master, lead-in grid and front-end composition.",
+   note=PROOF_NOTE + " Cache list lengths are bounded (B); known finding D11 (stale cached waveform after a later receive) is listed in known_findings.json.", ref="§5 C09")
 NOT_YET = {}
 def main():
     props = [json.loads(l) for l in open(os.path.join(HERE, "properties.jsonl"))]
